@@ -402,6 +402,81 @@ pub fn emit_proof(
             }
         }
         ctx.count_n("args:gate-polys-checked-on-all-rows", n_polys);
+        // the Lean row semantics of `honest_verifies_rows` (`Expr.eval (Rows.rowEnv n t i)`) on the same
+        // table: honest (no violation) and with ONE advice cell replaced — rows 0 / n-1 (wrap-around
+        // of the rotations), the last usable row and a random row; both must flag the same (gate, row)
+        if n_polys > 0 && !advice.is_empty() {
+            let flat: Vec<&Expression<F>> = cs.gates().iter().flat_map(|g| g.polynomials().iter()).collect();
+            let list = |tbl: &Table| {
+                let mut v = vec![];
+                for (gi, poly) in flat.iter().enumerate() {
+                    for i in 0..n {
+                        if !bool::from(tbl.eval(poly, i).is_zero()) {
+                            v.push(format!("{gi}@{i}"));
+                        }
+                    }
+                }
+                if v.is_empty() { "none".to_string() } else { v.join(",") }
+            };
+            ctx.case("gaterows", true, &format!("gaterows id={id}"), &list(&t));
+            let mut run = |col: usize, row: usize, delta: u64| -> (F, String) {
+                let mut adv2: Vec<Vec<F>> = advice.to_vec();
+                let val = adv2[col][row] + F::from(delta);
+                adv2[col][row] = val;
+                let perm_cols2: Vec<&Vec<F>> = perm_columns
+                    .iter()
+                    .map(|c| match c.column_type() {
+                        Any::Advice(_) => &adv2[c.index()],
+                        Any::Fixed => &fixed[c.index()],
+                        Any::Instance => &inst[c.index()],
+                    })
+                    .collect();
+                let t2 = Table {
+                    n, bf, cl, u, theta, beta, gamma, tc, omega,
+                    challenges: &log.challenges, fixed: &fixed, advice: &adv2, inst, sigma: &sigma, perm_cols: perm_cols2,
+                };
+                (val, list(&t2))
+            };
+            // fixed rows (wrap-around of the rotations, last usable row): the column that makes a gate fail if
+            // there is one; then two cells found by search among random (column, row) pairs
+            let mut picks: Vec<(usize, usize, F, String)> = vec![];
+            for row in [0usize, n - 1, u.saturating_sub(1)] {
+                let start = rng.gen_range(0..advice.len());
+                let mut chosen = None;
+                for d in 0..advice.len() {
+                    let col = (start + d) % advice.len();
+                    let (val, ans) = run(col, row, 1);
+                    if chosen.is_none() || ans != "none" {
+                        let hit = ans != "none";
+                        chosen = Some((col, row, val, ans));
+                        if hit {
+                            break;
+                        }
+                    }
+                }
+                picks.push(chosen.expect("an advice column"));
+            }
+            for _ in 0..2 {
+                let mut chosen = None;
+                for _ in 0..40 {
+                    let (col, row) = (rng.gen_range(0..advice.len()), rng.gen_range(0..n));
+                    let (val, ans) = run(col, row, 2);
+                    let hit = ans != "none";
+                    chosen = Some((col, row, val, ans));
+                    if hit {
+                        break;
+                    }
+                }
+                picks.push(chosen.expect("a candidate"));
+            }
+            for (col, row, val, ans) in picks {
+                ctx.count(if ans == "none" { "gaterows-altered:no-gate-reads-the-cell" } else { "gaterows-altered:flagged" });
+                if ans.split(',').count() > 1 {
+                    ctx.count("gaterows-altered:flagged-on-several-rows-or-gates");
+                }
+                ctx.case("gaterows-altered", true, &format!("gaterows id={id} ac={col} ar={row} av={}", hex(&val)), &ans);
+            }
+        }
         if !bad.is_empty() {
             ctx.oracle_fail(&fail_key("gate"), "a custom-gate polynomial is non-zero on a row of the honest table (blinding rows included)",
                 json!({"case": desc, "proof": proof_idx, "u": u, "violations(gate.poly@row)": bad.iter().take(20).collect::<Vec<_>>()}));
